@@ -34,6 +34,13 @@ FUNCS = [
     ("htp/htp_util.c", "htp_parse_chunked_length"),
     ("htp/htp_util.c", "htp_treat_response_line_as_body"),
     ("htp/htp_util.c", "htp_normalize_uri_path_inplace"),
+    ("htp/htp_list.c", "htp_list_array_get"),
+    ("htp/htp_list.c", "htp_list_array_pop"),
+    ("htp/htp_list.c", "htp_list_array_push"),
+    ("htp/htp_list.c", "htp_list_array_replace"),
+    ("htp/htp_list.c", "htp_list_array_size"),
+    ("htp/htp_list.c", "htp_list_array_shift"),
+    ("htp/htp_list.c", "htp_list_array_clear"),
 ]
 
 LIBC = {"tolower": "tolowerI", "toupper": "toupperI", "isspace": "isspaceI", "isdigit": "isdigitI"}
@@ -45,14 +52,18 @@ class Unsupported(Exception):
 
 def ctype(t):
     q = t.get("desugaredQualType") or t.get("qualType")
-    q = q.replace("const ", "").replace("volatile ", "").strip()
+    import re
+    q = re.sub(r"\b(const|volatile|register|restrict)\b", "", q)
+    q = re.sub(r"\s+", " ", q).strip()
+    q = q.replace("* *", "**").replace("* *", "**")
     return q
 
 
 INTW = {"unsigned long": "u64", "size_t": "u64", "uint64_t": "u64", "unsigned long long": "u64",
         "long": "i64", "int64_t": "i64", "long long": "i64", "ssize_t": "i64",
         "int": "i32", "htp_status_t": "i32", "unsigned int": "u32", "uint32_t": "u32",
-        "unsigned char": "u8", "uint8_t": "u8", "_Bool": "u8"}
+        "unsigned char": "u8", "uint8_t": "u8", "_Bool": "u8",
+        "void *": "u64"}      # an opaque pointer VALUE (stored, compared with NULL, never dereferenced)
 RANGE = {"u8": (0, 255), "u32": (0, 2 ** 32 - 1), "u64": (0, 2 ** 64 - 1), "i32": (-2 ** 31, 2 ** 31 - 1), "i64": (-2 ** 63, 2 ** 63 - 1)}
 
 
@@ -101,6 +112,9 @@ class Fn:
         self.nonnull = False
         self.effects = []
         self.mem_fields = []
+        self.local_mem = []
+        self.uses_alloc = False
+        self.struct_ints = []
 
     def fresh(self):
         self.nv += 1
@@ -176,6 +190,10 @@ class Fn:
                 if src and fits(src, w):
                     return E(e.term, "i", e.binds, src)
                 return E("(%s %s)" % (w, e.term), "i", e.binds, w)
+            if ck == "NullToPointer":
+                return E("0", "i", rng="u8")
+            if ck == "BitCast":
+                return self.expr(inner)
             if ck == "IntegralToBoolean":
                 return self.as_bool(self.expr(inner))
             if ck == "PointerToBoolean" and self.ptr_operand(inner):
@@ -187,7 +205,7 @@ class Fn:
             v = self.var.get(rd["id"])
             if v and v[0] == "int":
                 return E("s.%s" % v[1], "i", rng=v[2])
-            if v and v[0] in ("ptr", "bytes", "mem", "bstr"):
+            if v and v[0] in ("ptr", "bytes", "mem", "bstr", "struct"):
                 return E("ptr", "p")
             raise Unsupported("reference to %s %s" % (rd.get("kind"), rd.get("name")))
         if k == "UnaryOperator" and n.get("opcode") in ("++", "--") and n.get("isPostfix"):
@@ -236,6 +254,12 @@ class Fn:
                 fn = "andL" if op == "&&" else "orL"
                 return E(v, "b", [(v, "%s (%s) (%s)" % (fn, self.opt_bool(ea), self.opt_bool(eb)))])
             if op in ("==", "!=") and (is_ptr(a["type"]) or is_ptr(b["type"])):
+                lm = self.lmem_of(a) or self.lmem_of(b)
+                if lm:
+                    return E("(decide (s.%s_null %s 0))" % (lm, "≠" if op == "==" else "="), "b")
+                if self.opaque(a) or self.opaque(b):
+                    ea, eb = self.as_int(self.expr(a)), self.as_int(self.expr(b))
+                    return E("(decide (%s %s %s))" % (ea.term, "=" if op == "==" else "≠", eb.term), "b", ea.binds + eb.binds)
                 if self.ptr_operand(a) or self.ptr_operand(b):
                     self.nonnull = True
                     return E("false" if op == "==" else "true", "b")
@@ -271,6 +295,11 @@ class Fn:
             v = self.fresh()
             body = "if %s then %s else %s" % (ec.term, self.close(ea, lambda t: "some %s" % t), self.close(eb, lambda t: "some %s" % t))
             return E(v, "i", ec.binds + [(v, body)])
+        if k == "MemberExpr" and self.struct_field(n):
+            kind, f, w = self.struct_field(n)
+            if kind == "int":
+                return E("s.%s" % f, "i", rng=w)
+            return E("ptr", "p")
         if k == "MemberExpr":
             b = n["inner"][0]
             while b["kind"] in ("ImplicitCastExpr", "ParenExpr") or (b["kind"] == "UnaryOperator" and b.get("opcode") == "*"):
@@ -306,7 +335,89 @@ class Fn:
             v = self.var.get(n["referencedDecl"]["id"])
             if v and v[0] == "mem":
                 return v[1]
+            if v and v[0] == "lmem":
+                return v[1] + "_mem"
+        if n["kind"] == "MemberExpr":
+            sf = self.struct_field(n)
+            if sf and sf[0] == "mem":
+                return sf[1]
         return None
+
+    def struct_field(self, n):
+        """`p->f` for a struct-pointer parameter p: ('int', state field, wrap) or ('mem', state field, None)"""
+        b = n["inner"][0]
+        while b["kind"] in ("ImplicitCastExpr", "ParenExpr") or (b["kind"] == "UnaryOperator" and b.get("opcode") == "*"):
+            b = b["inner"][0]
+        if b["kind"] != "DeclRefExpr":
+            return None
+        v = self.var.get(b["referencedDecl"]["id"])
+        if not (v and v[0] == "struct"):
+            return None
+        f = "%s_%s" % (v[1], n["name"])
+        q = ctype(n["type"])
+        if q.endswith("**"):
+            if f not in self.mem_fields:
+                self.mem_fields.append(f)
+            return ("mem", f, None)
+        w = wrap_of(n["type"])
+        if f not in [x for x, _ in self.fields]:
+            self.fields.append((f, w))
+            self.int_params.append(f)
+            self.struct_ints.append(f)
+        return ("int", f, w)
+
+    def lmem_of(self, n):
+        while n["kind"] in ("ImplicitCastExpr", "CStyleCastExpr", "ParenExpr"):
+            n = n["inner"][0]
+        if n["kind"] == "DeclRefExpr":
+            v = self.var.get(n["referencedDecl"]["id"])
+            if v and v[0] == "lmem":
+                return v[1]
+        return None
+
+    def opaque(self, n):
+        while n["kind"] in ("ImplicitCastExpr", "CStyleCastExpr", "ParenExpr"):
+            n = n["inner"][0]
+        if n["kind"] == "DeclRefExpr":
+            v = self.var.get(n["referencedDecl"]["id"])
+            return bool(v and v[0] == "int" and v[2] == "u64" and is_ptr(n["type"]))
+        return False
+
+    def elems(self, n):
+        """a pointer expression into a mutable array -> (state field, element offset term); byte offsets must be `k * sizeof(T)`"""
+        while n["kind"] in ("ImplicitCastExpr", "CStyleCastExpr", "ParenExpr"):
+            n = n["inner"][0]
+        m = self.mem_base(n)
+        if m:
+            return m, "0"
+        if n["kind"] == "BinaryOperator" and n["opcode"] == "+":
+            a, b = n["inner"]
+            m = self.elems(a)
+            return m[0], "(%s + %s)" % (m[1], self.count(b)) if m[1] != "0" else self.count(b)
+        raise Unsupported("pointer expression into an array")
+
+    def count(self, n):
+        """`k * sizeof(T)` -> k (a pure integer term)"""
+        while n["kind"] in ("ImplicitCastExpr", "CStyleCastExpr", "ParenExpr"):
+            n = n["inner"][0]
+        if n["kind"] == "BinaryOperator" and n["opcode"] == "*":
+            a, b = n["inner"]
+            sa = a
+            while sa["kind"] in ("ImplicitCastExpr", "CStyleCastExpr", "ParenExpr"):
+                sa = sa["inner"][0]
+            sb = b
+            while sb["kind"] in ("ImplicitCastExpr", "CStyleCastExpr", "ParenExpr"):
+                sb = sb["inner"][0]
+            if sb["kind"] == "UnaryExprOrTypeTraitExpr":
+                e = self.as_int(self.expr(a))
+            elif sa["kind"] == "UnaryExprOrTypeTraitExpr":
+                e = self.as_int(self.expr(b))
+            else:
+                raise Unsupported("size that is not k * sizeof")
+            if e.binds:
+                raise Unsupported("size with reads")
+            return e.term
+        raise Unsupported("size that is not k * sizeof")
 
     def moving_base(self, n):
         """the byte parameter behind `n` when it is a plain reference to a pointer that the function moves"""
@@ -329,7 +440,7 @@ class Fn:
             t = t["inner"][0]
         if t["kind"] == "DeclRefExpr":
             v = self.var.get(t["referencedDecl"]["id"])
-            return bool(v and v[0] in ("bytes", "ptr", "mem", "bstr"))
+            return bool(v and v[0] in ("bytes", "ptr", "mem", "bstr", "struct"))
         return False
 
     @staticmethod
@@ -411,6 +522,26 @@ class Fn:
             self.effects = []
             raise Unsupported("side effect inside %s" % what)
 
+    def alloc(self, lm, rhs):
+        """`blk = realloc(arr, k * sizeof T)` / `blk = malloc(k * sizeof T)` / `blk = NULL`; success is the parameter alloc_ok"""
+        t = rhs
+        while t["kind"] in ("ImplicitCastExpr", "CStyleCastExpr", "ParenExpr"):
+            if t.get("castKind") == "NullToPointer":
+                return "assignS (fun s => some { s with %s_null := 1 })" % lm
+            t = t["inner"][0]
+        if t["kind"] == "CallExpr" and self.callee_name(t) in ("realloc", "malloc"):
+            self.uses_alloc = True
+            if self.callee_name(t) == "realloc":
+                src = self.elems(t["inner"][1])
+                if src[1] != "0":
+                    raise Unsupported("realloc of an inner pointer")
+                newm = "(resizeM s.%s (Int.toNat %s))" % (src[0], self.count(t["inner"][2]))
+            else:
+                newm = "(List.replicate (Int.toNat %s) 0)" % self.count(t["inner"][1])
+            return ("assignS (fun s => some (if s.alloc_ok ≠ 0 then { s with %s_mem := %s, %s_null := 0 } else { s with %s_null := 1 }))"
+                    % (lm, newm, lm, lm))
+        raise Unsupported("assignment to a local block")
+
     def mem_store(self, lhs, rhs_node):
         """`a[i] = e` on a mutable array"""
         m = self.mem_base(lhs["inner"][0])
@@ -437,6 +568,10 @@ class Fn:
                 v = self.var.get(t["referencedDecl"]["id"])
                 if v and v[0] == "ptr":
                     return v[1], v[2]
+        if n["kind"] == "MemberExpr":
+            sf = self.struct_field(n)
+            if sf and sf[0] == "int":
+                return sf[1], sf[2]
         raise Unsupported("assignment target %s" % n["kind"])
 
     def rhs(self, n):
@@ -469,6 +604,14 @@ class Fn:
             f, w = self.lvalue(n["inner"][0])
             op = "+" if n["opcode"] == "++" else "-"
             return "assignS (fun s => some { s with %s := (%s (s.%s %s 1)) })" % (f, w, f, op)
+        if k == "BinaryOperator" and n["opcode"] == "=" and self.lmem_of(n["inner"][0]):
+            return self.alloc(self.lmem_of(n["inner"][0]), n["inner"][1])
+        if k == "BinaryOperator" and n["opcode"] == "=" and n["inner"][0]["kind"] == "MemberExpr" \
+                and (self.struct_field(n["inner"][0]) or ("",))[0] == "mem":
+            lm = self.lmem_of(n["inner"][1])
+            if not lm:
+                raise Unsupported("array field assigned from something that is not a local block")
+            return "assignS (fun s => some { s with %s := s.%s_mem })" % (self.struct_field(n["inner"][0])[1], lm)
         if k == "BinaryOperator" and n["opcode"] == "=" and n["inner"][0]["kind"] == "ArraySubscriptExpr" and self.mem_base(n["inner"][0]["inner"][0]):
             return self.mem_store(n["inner"][0], n["inner"][1])
         if k == "BinaryOperator" and n["opcode"] == "=":
@@ -508,6 +651,10 @@ class Fn:
                 v = self.var[d["id"]]
                 if v[0] in ("bytes", "mem"):
                     continue
+                if v[0] == "lmem":
+                    if d.get("inner"):
+                        parts.append(self.alloc(v[1], d["inner"][0]))
+                    continue
                 if "inner" in d and d["inner"]:
                     e, outs = self.rhs(d["inner"][0])
                     parts.append(self.store(v[1], v[2], e, outs))
@@ -529,6 +676,13 @@ class Fn:
             return self.switch(n)
         if k == "ReturnStmt" and not n.get("inner"):
             return "retS (fun s => some 0)"
+        if k == "CallExpr" and self.callee_name(n) == "free":
+            return "skipS"
+        if k == "CallExpr" and self.callee_name(n) == "memcpy":
+            d, so = self.elems(n["inner"][1]), self.elems(n["inner"][2])
+            cnt = self.count(n["inner"][3])
+            return ("assignS (fun s => (memcpyM s.%s %s s.%s %s %s).bind fun m' => some { s with %s := m' })"
+                    % (d[0], d[1], so[0], so[1], cnt, d[0]))
         if k == "CallExpr" and self.callee_name(n) == "bstr_adjust_len":
             b = n["inner"][1]
             while b["kind"] in ("ImplicitCastExpr", "ParenExpr"):
@@ -680,6 +834,45 @@ class Fn:
             if isinstance(c, dict):
                 self.find_written(c, out)
 
+    def find_alloc_targets(self, n, out):
+        if n.get("kind") == "BinaryOperator" and n.get("opcode") == "=":
+            t = n["inner"][1]
+            while t["kind"] in ("ImplicitCastExpr", "CStyleCastExpr", "ParenExpr"):
+                t = t["inner"][0]
+            if t["kind"] == "CallExpr":
+                f = t["inner"][0]
+                while f["kind"] in ("ImplicitCastExpr", "ParenExpr"):
+                    f = f["inner"][0]
+                if f.get("referencedDecl", {}).get("name") in ("malloc", "realloc", "calloc"):
+                    l = n["inner"][0]
+                    while l["kind"] in ("ParenExpr",):
+                        l = l["inner"][0]
+                    if l["kind"] == "DeclRefExpr":
+                        out.add(l["referencedDecl"]["id"])
+        for c in n.get("inner", []) or []:
+            if isinstance(c, dict):
+                self.find_alloc_targets(c, out)
+
+    def find_array_use(self, n, out):
+        """ids of pointer variables that are indexed, dereferenced, moved, aliased by a local pointer or used in pointer arithmetic"""
+        def ref(t):
+            while t.get("kind") in ("ImplicitCastExpr", "CStyleCastExpr", "ParenExpr"):
+                t = t["inner"][0]
+            if t.get("kind") == "DeclRefExpr":
+                out.add(t["referencedDecl"]["id"])
+        k = n.get("kind")
+        if k == "ArraySubscriptExpr":
+            ref(n["inner"][0])
+        elif k == "UnaryOperator" and n.get("opcode") in ("*", "++", "--"):
+            ref(n["inner"][0])
+        elif k == "VarDecl" and "type" in n and is_ptr(n["type"]) and n.get("inner"):
+            ref(n["inner"][0])
+        elif k == "BinaryOperator" and n.get("opcode") in ("+", "-") and "type" in n and is_ptr(n["type"]):
+            ref(n["inner"][0]); ref(n["inner"][1])
+        for c in n.get("inner", []) or []:
+            if isinstance(c, dict):
+                self.find_array_use(c, out)
+
     def find_moving(self, n):
         if n.get("kind") == "UnaryOperator" and n.get("opcode") in ("++", "--"):
             t = n["inner"][0]
@@ -710,10 +903,20 @@ class Fn:
             return nm
         written = set()
         self.find_written(d, written)
+        used_as_array = set()
+        self.find_array_use(d, used_as_array)
         for c in d["inner"]:
             if c["kind"] == "ParmVarDecl":
                 nm = lean_name(c["name"])
-                if ctype(c["type"]) in ("bstr *", "struct bstr_t *"):
+                if ctype(c["type"]) in ("htp_list_array_t *", "struct htp_list_array_t *"):
+                    self.var[c["id"]] = ("struct", nm)
+                    self.decl_params.append(("struct", nm, None))
+                elif ctype(c["type"]) == "void *" and c["id"] not in used_as_array:
+                    self.var[c["id"]] = ("int", nm, "u64")
+                    self.fields.append((nm, "u64"))
+                    self.int_params.append(nm)
+                    self.decl_params.append(("int", nm, "u64"))
+                elif ctype(c["type"]) in ("bstr *", "struct bstr_t *"):
                     self.var[c["id"]] = ("bstr", nm)
                     self.mem_fields.append(nm + "_mem")
                     self.fields.append((nm + "_len", "u64"))
@@ -747,7 +950,21 @@ class Fn:
         self.find_moving(body)
         for mv in sorted(self.moving):
             self.fields.append((mv + "_off", "i64"))
+        assigned_alloc = set()
+        self.find_alloc_targets(body, assigned_alloc)
         for v in self.collect(body):
+            if is_ptr(v["type"]) and v["id"] in assigned_alloc:
+                nm = lean_name(v["name"])
+                self.var[v["id"]] = ("lmem", nm)
+                self.mem_fields.append(nm + "_mem")
+                self.local_mem.append(nm + "_mem")
+                self.fields.append((nm + "_null", "i32"))
+                continue
+            if ctype(v["type"]) == "void *" and v["id"] not in used_as_array:
+                nm = lean_name(v["name"])
+                self.var[v["id"]] = ("int", nm, "u64")
+                self.fields.append((nm, "u64"))
+                continue
             if is_ptr(v["type"]):
                 # a local byte pointer must be a plain alias of a parameter
                 t = (v.get("inner") or [None])[0]
@@ -768,6 +985,8 @@ class Fn:
         if self.is_void:     # falling off the end of a void function returns
             body = dict(body, inner=list(body.get("inner", [])) + [{"kind": "ReturnStmt"}])
         code = self.stmt(body)
+        if self.uses_alloc:
+            self.fields.append(("alloc_ok", "i32"))
         st = "St_" + self.name
         out = ["/-- state of `%s`: parameters, locals and the integers behind pointer parameters -/" % self.name,
                "structure %s where" % st]
@@ -786,11 +1005,16 @@ class Fn:
         out.append("def %s_stmt %s : Stmt %s :=" % (self.name, bsig, st))
         out.append("  " + code.replace("\n", "\n  "))
         out.append("")
-        sig = " ".join(["(fuel : Nat)"] + ["(%s : Bytes)" % b for b in self.bytes_params] + ["(%s : List Int)" % m for m in self.mem_fields]
+        # the integer fields of a struct parameter come after the real parameters, in alphabetical order (stable under edits)
+        self.int_params = [x for x in self.int_params if x not in self.struct_ints] + sorted(self.struct_ints)
+        if self.uses_alloc:
+            self.int_params.append("alloc_ok")
+        pmem = [m for m in self.mem_fields if m not in self.local_mem]
+        sig = " ".join(["(fuel : Nat)"] + ["(%s : Bytes)" % b for b in self.bytes_params] + ["(%s : List Int)" % m for m in pmem]
                        + ["(%s : Int)" % i for i in self.int_params])
         out.append("/-- `%s` (%s) -/" % (self.name, d["type"]["qualType"]))
         out.append("def %s %s : Option (Int × %s) :=" % (self.name, sig, st))
-        init = ", ".join("%s := %s" % (i, i) for i in self.int_params + self.mem_fields)
+        init = ", ".join("%s := %s" % (i, i) for i in self.int_params + pmem)
         out.append("  run (%s_stmt %s) { %s }" % (self.name, bargs, init))
         out.append("")
         return "\n".join(out)
